@@ -113,6 +113,14 @@ def register(M):
         h = T.type_name_hint(dty or '')[0]
         if h == 'Vec':
             return Obj('vec', items=tuple(items), ty=dty)
+        if h == 'HashMap':
+            g = generic_args(dty or '')
+            m = M.new_assoc(g[0] if g else '?', g[1] if len(g) > 1 else '?')
+            c = Cell(m)
+            for it in items:
+                it = ex.materialize(it)
+                M.assoc_insert(ex, c, (), c.v, ex.field_of(it, None, 0, '?'), ex.field_of(it, None, 1, '?'), 'Option<?>')
+            return c.v
         raise Inconclusive('collect into %s' % dty)
 
     @reg('iter::once')
@@ -170,6 +178,28 @@ def register(M):
             else:
                 out += seq_of(ex, it)
         return mkiter(out, dty)
+
+    # ---------------------------------------------------------------- vec![..] lowering
+    @reg('Box::new_uninit')
+    def _(ex, info, a, dty):
+        c = Cell(Adt('MaybeUninit<[T; N]>', {}, None, None))
+        return Ref(c, (), pid=bv(0x6000000000000000 + c.id * 64))
+
+    @reg('boxed::box_assume_init_into_vec_unsafe', '<impl>::into_vec')
+    def _(ex, info, a, dty):
+        b = ex.materialize(a[0])
+        v = ex.read_path(b.cell, b.path)
+        for _ in range(4):
+            if isinstance(v, Obj) and v.kind == 'vec':
+                return Obj('vec', items=v.items, ty=dty)
+            v = ex.materialize(v)
+            if isinstance(v, Adt):
+                keys = [k for k in v.fields if k[0] is None]
+                nxt = [v.fields[k] for k in sorted(keys, key=lambda k: k[1], reverse=True)]
+                if not nxt:
+                    break
+                v = nxt[0]
+        raise Inconclusive('vec![..] lowering not recognised: %r' % (v,))
 
     # ---------------------------------------------------------------- Vec
     @reg('Vec::new')
